@@ -178,6 +178,8 @@ impl<F> FuturesUnordered<F> {
                 let mut next = FuturesUnorderedBounded::new(last.capacity() * 2);
                 next.push(future);
                 self.groups.push(next);
+                #[cfg(futures_buffered_verif)]
+                crate::verif::hit(crate::verif::Hit::GroupCreated);
             }
         }
     }
@@ -204,6 +206,21 @@ impl<F> FuturesUnordered<F> {
                 self.rem + spare_cap
             }
         }
+    }
+}
+
+#[cfg(futures_buffered_verif)]
+impl<F> FuturesUnordered<F> {
+    /// Read-only view for the verification harness: `(cursor, [(capacity, len) per group])`.
+    #[doc(hidden)]
+    pub fn __verif_layout(&self) -> (usize, Vec<(usize, usize)>) {
+        (
+            self.poll_next,
+            self.groups
+                .iter()
+                .map(|g| (g.capacity(), g.len()))
+                .collect(),
+        )
     }
 }
 
@@ -234,6 +251,8 @@ impl<F: Future> Stream for FuturesUnordered<F> {
                 Poll::Ready(None) => {
                     let group = groups.remove(*poll_next);
                     debug_assert!(group.is_empty());
+                    #[cfg(futures_buffered_verif)]
+                    crate::verif::hit(crate::verif::Hit::GroupDiscarded);
 
                     if groups.is_empty() {
                         // group should contain at least 1 set
@@ -245,6 +264,8 @@ impl<F: Future> Stream for FuturesUnordered<F> {
                     // we do not want to drop the last set as it contains
                     // the largest allocation that we want to keep a hold of
                     if *poll_next == groups.len() {
+                        #[cfg(futures_buffered_verif)]
+                        crate::verif::hit(crate::verif::Hit::GroupRotated);
                         groups.push(group);
                         *poll_next = 0;
                     }
